@@ -409,6 +409,60 @@ def run_shard(job: dict[str, Any]) -> dict[str, Any]:
         wit = {"method": name, "metadata": {kk.decode("latin1"): vv.decode("latin1") for kk, vv in md.items()}}
         chk.case(f"meta:{k.decode('latin1') if k.isascii() else repr(k)}:{vclass}:{KIND[name]}|{case.get('with_size', '')}|{case.get('with_name', '')}")
         run_wellframed(name, name.encode(), _method_schema(name), _valid_row(name), md, b"1", key, wit)
+    # ---- leg 1b: shared-memory pointer requests (0-row request batch + offset/length/segment name) ---------
+    def _place(how: str, mname: str) -> tuple[str, str]:
+        """Put request bytes into ``seg`` and return (offset, length) as the client would advertise them."""
+        import io
+
+        import pyarrow as pa
+        from pyarrow import ipc
+
+        sch = _method_schema(mname)
+        rb = pa.RecordBatch.from_arrays([pa.array(col, type=f.type) for col, f in zip(_valid_row(mname), sch, strict=True)], schema=sch)
+        if how == "allocated":
+            got = seg.allocate_and_write(rb)
+            assert got is not None
+            return str(got[0]), str(got[1])
+        sink = io.BytesIO()
+        with ipc.new_stream(sink, sch) as w:
+            w.write_batch(rb)
+        raw = sink.getvalue()
+        buf = seg._shm.buf
+        assert buf is not None
+        if how == "unregistered":
+            # a peer that wrote a good batch but whose allocation table does not list it
+            off = 200000
+            buf[off : off + len(raw)] = raw
+            return str(off), str(len(raw))
+        if how == "garbage":
+            off = 180000
+            buf[off : off + 64] = bytes(rng.randrange(256) for _ in range(64))
+            return str(off), "64"
+        if how == "truncated":
+            off = 190000
+            buf[off : off + len(raw)] = raw
+            return str(off), str(max(8, len(raw) // 2))
+        raise AssertionError(how)
+
+    for case in job.get("pointer_cases", []):
+        name = case["method"]
+        key = f"shm_pointer:{case['how']}:{case['name']}"
+        chk.case(f"shm_pointer:{case['how']}:{case['name']}:{KIND[name]}")
+        if case["how"] in ("allocated", "unregistered", "garbage", "truncated"):
+            off, ln = _place(case["how"], name)
+        else:
+            off, ln = case["off"], case["len"]
+        md = {
+            b"vgi_rpc.shm_offset": off.encode(),
+            b"vgi_rpc.shm_length": ln.encode(),
+            b"vgi_rpc.shm_segment_name": {"real": seg.name.encode(), "foreign": foreign.name.encode(), "missing": b"psm_nope"}[case["name"]],
+            b"vgi_rpc.shm_segment_size": b"262144",
+        }
+        wit = {"method": name, "pointer": case, "metadata": {kk.decode("latin1"): vv.decode("latin1") for kk, vv in md.items()}}
+        chk.hit("shm_pointer_request_sent")
+        run_wellframed(name, name.encode(), _method_schema(name), None, md, b"1", key, wit)
+        with contextlib.suppress(Exception):
+            seg.reset()
     # ---- leg 2: method / version field ------------------------------------------------------------
     for case in job["head_cases"]:
         m = None if case["method"] is None else case["method"].encode("latin1")
@@ -499,6 +553,13 @@ def build_jobs(tier: str, seed: int, nshards: int) -> list[dict[str, Any]]:
                 meta.append({"method": rng.choice(["echo", "blob", "prod"]), "key": "vgi_rpc.shm_offset", "vclass": f"off={_vclass(off.encode())}:len={_vclass(ln.encode())}", "value": off, "with_name": nm, "with_size": "262144"})
                 meta[-1]["key"] = "vgi_rpc.shm_offset"
                 meta.append({"method": "echo", "key": "vgi_rpc.shm_length", "vclass": f"len={_vclass(ln.encode())}", "value": ln, "with_name": nm, "with_size": "262144"})
+    pointer: list[dict[str, Any]] = []
+    for m in ["echo", "typed", "blob", "prod"]:
+        for nm in ("real", "foreign", "missing"):
+            for how in ("allocated", "unregistered", "garbage", "truncated"):
+                pointer.append({"method": m, "how": how, "name": nm})
+            for off, ln in [("0", "16"), ("4096", "0"), ("262100", "4096"), ("-8", "64"), ("abc", "16"), ("16", "abc"), ("99999999999", "8"), ("4096", "-1")]:
+                pointer.append({"method": m, "how": "numbers", "name": nm, "off": off, "len": ln})
     head: list[dict[str, Any]] = []
     mvals = [("valid", "echo"), ("unknown", "nope"), ("empty", ""), ("nonutf8", "\xff\xfe"), ("long", "m" * 5000), ("absent", None), ("describe", "__describe__"), ("transport_options", "__transport_options__")]
     vvals = [("one", "1"), ("absent", None), ("two", "2"), ("empty", ""), ("nonutf8", "\xff"), ("spaced", " 1"), ("long", "1" * 300)]
@@ -515,6 +576,7 @@ def build_jobs(tier: str, seed: int, nshards: int) -> list[dict[str, Any]]:
                 "tier": tier,
                 "seed": seed * 1000 + i,
                 "meta_cases": meta[i::nshards],
+                "pointer_cases": pointer[i::nshards],
                 "head_cases": head[i::nshards],
                 "column_cases": (400 if tier == "quick" else 20000) // nshards,
                 "cut_cases": (40 if tier == "quick" else 400) // nshards + 1,
